@@ -183,21 +183,32 @@ def limit(rows: List[Tuple[Optional[int]]], n: int) -> str:
     return 'ok'
 
 
-def make_apply_order(nrows, quick, thorough):
+_AVAL = {'null': None, '0': 0, '1': 1}
+
+
+def make_apply_order(nrows, quick, thorough, null_b=True, fixed=(), desc=None):
+    """`fixed` (labels for the first a cells) and `desc` split the path tree of the larger instances over several
+    conditions, one core each; together the conditions of a family cover the whole domain."""
     params = {}
     for i in range(nrows):
-        params[f'a{i}'] = int
-        params[f'b{i}'] = Optional[int]
-    params['desc'] = bool
+        if i >= len(fixed):
+            params[f'a{i}'] = int
+        params[f'b{i}'] = Optional[int] if null_b else int
+    if desc is None:
+        params['desc'] = bool
     params['n'] = int
+    suffix = (('' if null_b else '.nonnull-b') + ''.join(f'.a{i}={v}' for i, v in enumerate(fixed))
+              + ('' if desc is None else f'.{"desc" if desc else "asc"}'))
 
-    @cond(f'C03.apply-order.{nrows}rows', quick=quick, thorough=thorough,
-          bounds=f'{nrows} rows (a in {{NULL,0,1}} enumerated, b symbolic int or NULL); SELECT DISTINCT a ORDER BY b [DESC] '
-                 f'LIMIT n, n in 0..{nrows}: sort, then project, then dedup, then cut',
+    @cond(f'C03.apply-order.{nrows}rows{suffix}', quick=quick, thorough=thorough,
+          bounds=f'{nrows} rows (a in {{NULL,0,1}} enumerated, b symbolic int{" or NULL" if null_b else ""}); SELECT DISTINCT a '
+                 f'ORDER BY b [DESC] LIMIT n, n in 0..{nrows}: sort, then project, then dedup, then cut'
+                 + ''.join(f'; a{i}={v}' for i, v in enumerate(fixed))
+                 + ('' if desc is None else f'; direction {"DESC" if desc else "ASC"}'),
           symbolic='b cells, direction, n', enumerated='a cells', params=params, group='C03.apply-order')
-    def apply_order(desc, n, **kw):
+    def apply_order(n, desc=desc, **kw):
         assume(0 <= n <= nrows)
-        rows = [(KEYDOM.build(f'a{i}', kw), kw[f'b{i}']) for i in range(nrows)]
+        rows = [(_AVAL[fixed[i]] if i < len(fixed) else KEYDOM.build(f'a{i}', kw), kw[f'b{i}']) for i in range(nrows)]
         columns = [('a', int), ('b', int)]
         order = [ast.OrderBy(col('b'), ast.Ordering.DESC if desc else ast.Ordering.ASC)]
         stmt = sel([target(col('a'))], 't', order_by=order, distinct=True, limit=n)
@@ -207,7 +218,6 @@ def make_apply_order(nrows, quick, thorough):
         if len(cur.description) != 1:
             return 'hidden-key-visible'
         return 'ok'
-
 
 
 def make_distinct_limit(nrows, quick, thorough):
@@ -229,7 +239,11 @@ def make_distinct_limit(nrows, quick, thorough):
 
 
 make_apply_order(2, 180, 360)
-make_apply_order(3, None, 1200)
+for _desc in (False, True):
+    for _a0 in _AVAL:
+        make_apply_order(3, 300, None, null_b=False, fixed=(_a0,), desc=_desc)
+        for _a1 in _AVAL:
+            make_apply_order(3, None, 900, fixed=(_a0, _a1), desc=_desc)
 make_distinct_limit(2, 60, 120)
 make_distinct_limit(3, 120, 240)
 make_distinct_limit(4, None, 600)
